@@ -90,7 +90,7 @@ def gen_case(rng, big=False):
             stc_p = sale
             grants = [dict(num=str(grantno + 10 * bi + g), fmv=(money(rng, 40, 220, 2) if rng.random() < 0.8 else "1," + money(rng, 100, 900, 2)),
                            shares=str(rng.randint(10, 400)), sale=sale, fee=money(rng, 0, 20, 2)) for g in range(ng)]
-            rec = dict(sym=sym, date=date, extype=rng.choice(["Same-Day Sale", "Sell to Cover", "Same-Day Sale (Stock)"]),
+            rec = dict(sym=sym, date=date, extype=rng.choice(["Same-Day Sale", "Sell to Cover", "Cashless Exercise"]),
                        shares_sold=(str(sold_n) if sold_n < 1000 else "{:,}".format(sold_n)), grants=grants)
         name = "%s%s_%d.txt" % (rng.choice("abcmxyz"), kind, bi)
         files.append(dict(kind=kind, style=rng.choice([0, 1]), rec=rec, path=name))
